@@ -295,7 +295,7 @@ nd::harnesses! {
     }
 
     /// CBox: every constructor, opaque conversion, into_inner (value returned once, box freed).
-    #[kani::unwind(20)]
+    #[kani::unwind(64)]
     fn c06_cbox_paths() {
         reset();
         let v: u32 = nd::any();
